@@ -110,6 +110,12 @@ class FloquetBasis:
         if not sparse and isinstance(U_T.data, _data.CSR):
             U_T = U_T.to("Dense")
         evals, evecs = _data.eigs(U_T.data)
+        # U(T) is unitary: eigenvectors of different quasi-energies are
+        # orthogonal, but those of degenerate ones are returned as any basis
+        # of the eigenspace. The modes must be orthonormal.
+        q, r = np.linalg.qr(evecs.to_array())
+        r = np.diag(r)
+        evecs = _data.Dense(q * (r / np.abs(r)))
         e_quasi = -np.angle(evals) / T
         if sort:
             perm = np.argsort(e_quasi)
